@@ -530,6 +530,12 @@ def main():
     if not run.quick:
         queries += [(SHAPES[4], "inference", 2, 3, [(0, 1), (1, 0)]), (SHAPES[4], "sampling", None, None, [(2, 0)]), (SHAPES[3], "inference", 1, 1, [(2, 0)]),
                     (SHAPES[1], "sampling", None, None, [(1, 2)]), (SHAPES[-1], "inference", 1, 1, [(2, 1)])]
+    # network variables whose names collide with the helper variables of the queries ("count", "continue"), literally and
+    # only after sanitising (lower-casing, stripping)
+    for hs, ev in (([("Rain", 2, []), ("Count", 2, [0])], [(0, 1)]), ([("Rain", 2, []), ("Count", 2, [0])], [(1, 1)]), ([("Continue", 2, []), ("B", 2, [0])], [(1, 1)]),
+                   ([("count", 2, []), ("B", 2, [0])], [(1, 0)]), ([("COUNT-", 2, []), ("continue", 2, [0])], [(0, 1), (1, 0)])):
+        queries.append((hs, "sampling", None, None, ev))
+        queries.append((hs, "inference", 0, 1, [(1, 1)]))
     for q in queries:
         work.append((job_query, q, f"query/{q[1]}/{q[0]}"))
     work.append((job_bif_text, run.seed, "bif-text"))
